@@ -6,7 +6,7 @@
    computation is on booleans / dumps / real numbers, never on a term of type
    F32 / F64. *)
 From RM Require Import Model.ControlPoints Model.Curve Proofs.EncFloat Proofs.LengthFacts Proofs.LengthBound Proofs.InterpExact Proofs.PositionExact
-  Proofs.AdjustExact Proofs.AdjustIEEEBase Proofs.AdjustIEEE Proofs.InterpIEEE Proofs.InterpIEEEFrac.
+  Proofs.AdjustExact Proofs.AdjustIEEEBase Proofs.AdjustIEEE Proofs.AdjustIEEESum Proofs.InterpIEEE Proofs.InterpIEEEFrac.
 From Flocq Require Import Core BinarySingleNaN.
 From Coq Require Import Reals Lra Lia ZArith List.
 Import ListNotations.
@@ -213,4 +213,69 @@ Proof.
   split.
   - eapply Rle_trans; [exact Bx|]. apply Rmax_lub; lra.
   - eapply Rle_trans; [exact By|]. apply Rmax_lub; lra.
+Qed.
+
+(* ---------- C16: the accumulated error of the cumulative lengths ---------- *)
+
+Lemma ex_R2_0 : R2 ex_p0 = (0, 0).
+Proof. unfold R2, ex_p0. cbn [px py]. rewrite (proj2 (S_ofZ 0 ltac:(lia))). reflexivity. Qed.
+
+Example ex_path_hyps :
+  Forall (fun p => coord_le p 20) ex_path /\ segs_ok ex_path /\ (length ex_path <= 2 ^ 50)%nat /\
+  poly_len (map R2 ex_path) <= pw 1000.
+Proof.
+  destruct ex_R2 as (E1 & E2). pose proof ex_R2_0 as E0.
+  split; [|split; [|split]].
+  - unfold ex_path, ex_p0, ex_p1, ex_p2, coord_le.
+    repeat (apply Forall_cons; [cbn [px py]; split; apply bnd32_ofZ; lia|]). apply Forall_nil.
+  - unfold ex_path. cbn [segs_ok]. unfold seg_ok. rewrite E0, E1, E2.
+    assert (D1 : edist (0, 0) (3, 4) = 5) by (apply edist_eq; cbn [fst snd]; lra).
+    assert (D2 : edist (3, 4) (8, 16) = 13) by (apply edist_eq; cbn [fst snd]; lra).
+    assert (P : pw (-10) <= 1) by (apply Rle_trans with (pw 0); [apply bpow_le; lia|cbn; lra]).
+    rewrite D1, D2. split; [right; lra|]. split; [right; lra|exact I].
+  - change (length ex_path) with 3%nat. apply Nat.le_trans with 50%nat; [clear; lia|].
+    apply Nat.lt_le_incl, Nat.pow_gt_lin_r. clear. lia.
+  - unfold ex_path. cbn [map]. rewrite E0, E1, E2.
+    apply Rle_trans with 18; [right; exact (proj2 cumlen_example)|].
+    apply Rle_trans with (pw 5); [cbn; lra|apply bpow_le; lia].
+Qed.
+
+(* the kept cumulative length 5 of the cut example is exact up to alpha 3 * 5 < 9e-7,
+   and the exact polyline length of the adjusted path is within 5.7e-6 of L = 9 *)
+Example ex_adjusted_length_full :
+  exists q, adjust_end ex_path (natural ex_path D.zero) 2 (D.of_Z 9) = Some q /\
+    Rabs (poly_len (map R2 (firstn 2 ex_path ++ [q])) - 9) <= 5.7 / 1000000.
+Proof.
+  destruct ex_path_hyps as (Hc & Hs & Hn & Ht).
+  assert (Hcc : nth_error (cumlen (map R2 ex_path)) 1 = Some 5).
+  { unfold ex_path. cbn [map]. destruct ex_R2 as (E1 & E2). rewrite E1, E2, ex_R2_0.
+    exact (f_equal (fun l => nth_error l 1%nat) (proj1 cumlen_example)). }
+  assert (Hlp : exists lp, nth_error (natural ex_path D.zero) 1 = Some lp /\ D.bits lp = D.bits (D.of_Z 5)).
+  { pose proof ex_lens_are_natural as N.
+    destruct (natural ex_path D.zero) as [|x0 [|x1 r]]; try discriminate N.
+    exists x1. split; [reflexivity|]. cbn [map ex_lens] in N. inversion N. assumption. }
+  destruct Hlp as (lp & Hlp & Blp).
+  (* what is needed about lp: from the error theorem itself *)
+  pose proof (natural_lengths_error ex_path Hc Hs Hn Ht) as Hok.
+  destruct (lens_ok_nth _ _ _ _ _ _ Hok Hlp Hcc) as (Flp & (d & Ed & Bd)).
+  assert (A3 : alpha 3 <= 1.8 / 10000000).
+  { unfold alpha, u32, u64. change (INR 3) with (1 + 1 + 1). lra. }
+  change (length ex_path) with 3%nat in Bd.
+  assert (Rl : 5 - 1 / 1000000 <= B2R lp <= 5 + 1 / 1000000).
+  { rewrite Ed. apply Rabs_le_inv in Bd. nra. }
+  destruct (D_ofZ 9 ltac:(lia)) as (F9 & R9).
+  destruct ex_R2 as (E1 & E2).
+  assert (HD : pw (-10) <= edist (R2 ex_p1) (R2 ex_p2)).
+  { rewrite E1, E2. assert (E : edist (3, 4) (8, 16) = 13) by (apply edist_eq; cbn [fst snd]; lra).
+    rewrite E. apply Rle_trans with (pw 0); [apply bpow_le; lia|cbn; lra]. }
+  assert (HT : 0 <= B2R (D.of_Z 9) - B2R lp <= pw 20).
+  { rewrite R9. split; [lra|]. apply Rle_trans with (pw 3); [cbn; lra|apply bpow_le; lia]. }
+  destruct (adjusted_length_ieee_bound_full ex_path 2 (D.of_Z 9) ex_p1 ex_p2 lp 5 Hc Hs Hn Ht
+              ltac:(change (length ex_path) with 3%nat; clear; lia) eq_refl eq_refl Hlp Hcc F9 HT HD) as (q & Hq & _ & B).
+  exists q. split; [exact Hq|]. rewrite R9 in B. change (length ex_path) with 3%nat in B.
+  unfold ex_p1 in B. cbn [px py] in B.
+  rewrite (proj2 (S_ofZ 3 ltac:(lia))), (proj2 (S_ofZ 4 ltac:(lia))) in B.
+  assert (P : pw (-127) <= / 100000000).
+  { apply Rle_trans with (pw (-30)); [apply bpow_le; lia|cbn; lra]. }
+  unfold E16, u32 in B. rewrite (Rabs_pos_eq 3), (Rabs_pos_eq 4) in B by lra. lra.
 Qed.
